@@ -1,31 +1,36 @@
 import AslModel.Lemmas.Dis6800
-import AslModel.Model.Dis.RT6800
 import AslModel.Props.C15
 /-! C15 for the 6800/6802 (deco68.c ↔ code68.c).
 
 Models: `Model/Dis/M6800.lean` = `Disassemble_68`/`MakeSymbolic`/`RetrieveData` of deco68.c over the regenerated `OpcodeList[256]`;
 `Model/Dis/A6800.lean` = the 6800 part of code68.c (statement splitting, `InstTable` from the regenerated `InitFields` call list,
-`DecodeAdr` with the direct/extended selection, the decoders) on the text dasl prints; `Model/Dis/RT6800.lean` = `knownBad`
-(the four input classes the round-trip theorem excludes) and `defectsPresent` (the table facts behind three of them). -/
+`DecodeAdr` with the direct/extended selection and the `<`/`>` prefixes, the decoders) on the text dasl prints.
+
+`C15_6800_roundtrip` has no excluded input class any more: the four classes it used to exclude (`$14` = `nba`, `$34` = `dess`,
+`$C7` = `stab #`, extended-mode operands in page 0 printed without `>`) were defects of deco68.c that have been repaired; the
+theorems `C15_6800_every_mnemonic_known`, `C15_6800_des`, `C15_6800_unknown_opcodes_listed_as_data`, `C15_6800_ext_zero_page` state
+the repaired behaviour.  `C15_6800_honest` no longer needs the instructions of the image to be "whole": since the repair of
+`RetrieveCodeFromChunkList` a request is answered only with bytes of the image (`retrieve_isSome_iff`), so an instruction cut
+off by the end of a chunk is not reported at all (`C15_6800_cut_instruction_not_reported`) and one that lies across two chunks
+is fetched correctly (`C15_6800_instruction_across_chunks`).  What remains is the continuation at address 0 behind $FFFF in
+deco68.c's own `RetrieveData` (`C15_finding_6800_wrap_instruction`). -/
 namespace AslModel.Dis
 open AslModel.Generated
 
 open M6800 A6800 in
 /-- Round trip of one instruction, on the printed text: for every address `a`, opcode `op` and operand bytes `data` that
 `Disassemble_68` decodes (inverse symbol table `syms` before, `syms'` after), the statement it prints into `SrcLine` is assembled
-by code68.c at program counter `a` to exactly `op :: data` – provided the instruction ends inside the 64K address space, every
+by code68.c at program counter `a` to exactly `op :: data` – provided the instruction ends inside the 64K address space and every
 name of the inverse symbol table is a plain label that the assembler's symbol table maps back to its address (dasl defines the
-labels it invents by the `lab_XXXX:` framing lines), and the input is none of the four known bad classes. -/
+labels it invents by the `lab_XXXX:` framing lines).  No opcode and no operand value is excluded. -/
 theorem C15_6800_roundtrip (lower : Bool) (syms syms' : Syms) (env : A6800.Env) (a op : Nat) (data : List Nat) (dec : M6800.Dec)
     (hop : op < 256) (hdata : ∀ d ∈ data, d < 256)
     (h : M6800.decode lower syms a op data = some (dec, syms'))
     (ha : a + dec.len ≤ 0x10000)
-    (hsym : ∀ x n, syms'.lookup x = some n → A6800.plainLabel n.toList = true ∧ env n.toList = some x)
-    (hbad : M6800.knownBad op data = false) :
+    (hsym : ∀ x n, syms'.lookup x = some n → A6800.plainLabel n.toList = true ∧ env n.toList = some x) :
     A6800.assemble env a dec.text = some (op :: data) := by
   have ht := table_ok op hop
   unfold tableOK at ht
-  unfold M6800.knownBad at hbad
   unfold M6800.decode at h
   generalize hr : M6800.row op = r at *
   simp only [Bool.and_eq_true, List.all_eq_true, Bool.not_eq_true'] at ht
@@ -33,7 +38,7 @@ theorem C15_6800_roundtrip (lower : Bool) (syms syms' : Syms) (env : A6800.Env) 
   by_cases hlen : data.length = operandBytes r
   case neg => simp [hlen] at h
   simp only [hlen, ne_eq, not_true_eq_false, ↓reduceIte] at h
-  cases hty : r.typ <;> simp only [hty] at h ht hbad
+  cases hty : r.typ <;> simp only [hty] at h ht
   case eUnknown => cases h
   case eImplicit =>
     simp only [Option.some.injEq, Prod.mk.injEq] at h
@@ -43,11 +48,10 @@ theorem C15_6800_roundtrip (lower : Bool) (syms syms' : Syms) (env : A6800.Env) 
     have hd : data = [] := List.eq_nil_of_length_eq_zero hlen
     subst hd
     simp only [instrLen, operandBytes, hty] at ha
-    simp only [Bool.or_eq_false_iff, beq_eq_false_iff_ne] at hbad
     cases hl : lookup r.memo with
-    | none => simp [hl, hbad.1.1.1, hbad.1.1.2] at ht
+    | none => simp [hl] at ht
     | some hd =>
-      cases hd <;> simp [hl, hbad.1.1.1, hbad.1.1.2] at ht
+      cases hd <;> simp [hl] at ht
       case fixed c mn mx =>
         obtain ⟨⟨rfl, h1⟩, h2⟩ := ht
         exact assemble_plain env a r.memo _ _ hmemo hl (encode_fixed a c mn mx r.memo h1 h2 hop) (by simp; omega)
@@ -118,45 +122,58 @@ theorem C15_6800_roundtrip (lower : Bool) (syms syms' : Syms) (env : A6800.Env) 
     rw [hoa] at hsym ⊢
     have g := makeSymbolic_good env lower syms (d0 * 256 + d1) 2 _ (by omega) hsym
     generalize (makeSymbolic lower syms (d0 * 256 + d1) 2 _).fst.toList = atom at g ⊢
-    simp only [List.nil_append, Bool.false_eq_true, if_false, List.append_nil]
-    simp only [BEq.rfl, Bool.true_and, List.head?_cons, Bool.or_eq_false_iff, beq_eq_false_iff_ne] at hbad
-    cases hl : lookup r.memo with
-    | none => simp [hl] at ht
-    | some hd =>
-      cases hd <;> simp [hl] at ht
-      case alu8 w =>
-        obtain ⟨⟨⟨h1, h2⟩, h3⟩, h4⟩ := ht
-        have h256 : 256 ≤ d0 * 256 + d1 := by
-          have := hbad.2
-          simp [h3, h4] at this
-          omega
-        exact asm_one g a r.memo _ _ hmemo hl
-          (by rw [encode_alu8_ext g a w r.memo (by omega) h256 h1, h2, hq, hm]) (by simp; omega)
-      case alu16 mi mn sh c =>
-        obtain ⟨⟨⟨⟨⟨h1, h2⟩, h3⟩, h4⟩, h5⟩, h6⟩ := ht
-        have h256 : 256 ≤ d0 * 256 + d1 := by
-          have := hbad.2
-          simp [h5, h6] at this
-          omega
-        exact asm_one g a r.memo _ _ hmemo hl
-          (by rw [encode_alu16_ext g a mn sh c mi r.memo (by omega) h256 h1 h2 h3, h4, hq, hm]) (by simp; omega)
-      case sing8 c =>
-        exact asm_one g a r.memo _ _ hmemo hl (by rw [encode_sing8_ext g a c r.memo (by omega), ht.1, hq, hm]) (by simp; omega)
-      case jmp =>
-        exact asm_one g a r.memo _ _ hmemo hl (by rw [encode_jmp_ext g a r.memo (by omega), ht.1, hq, hm]) (by simp; omega)
-      case jsr =>
-        exact asm_one g a r.memo _ _ hmemo hl (by rw [encode_jsr_ext g a r.memo (by omega), ht.1, hq, hm]) (by simp; omega)
+    simp only [Bool.false_eq_true, if_false, List.append_nil]
+    by_cases hpg : d0 * 256 + d1 < 0x100
+    · -- page 0: printed with `>`, which forces the extended mode
+      simp only [hpg, if_true, List.cons_append, List.nil_append]
+      cases hl : lookup r.memo with
+      | none => simp [hl] at ht
+      | some hd =>
+        cases hd <;> simp [hl] at ht
+        case alu8 w =>
+          obtain ⟨⟨⟨h1, h2⟩, h3⟩, h4⟩ := ht
+          exact asm_gt g a r.memo _ _ hmemo hl
+            (by rw [encode_alu8_extF g a w r.memo (by omega) h1, h2, hq, hm]) (by simp; omega)
+        case alu16 mi mn sh c =>
+          obtain ⟨⟨⟨⟨⟨h1, h2⟩, h3⟩, h4⟩, h5⟩, h6⟩ := ht
+          exact asm_gt g a r.memo _ _ hmemo hl
+            (by rw [encode_alu16_extF g a mn sh c mi r.memo (by omega) h1 h2 h3, h4, hq, hm]) (by simp; omega)
+        case sing8 c =>
+          exact asm_gt g a r.memo _ _ hmemo hl (by rw [encode_sing8_extF g a c r.memo (by omega), ht.1, hq, hm]) (by simp; omega)
+        case jmp =>
+          exact asm_gt g a r.memo _ _ hmemo hl (by rw [encode_jmp_extF g a r.memo (by omega), ht.1, hq, hm]) (by simp; omega)
+        case jsr =>
+          exact asm_gt g a r.memo _ _ hmemo hl (by rw [encode_jsr_extF g a r.memo (by omega), ht.1, hq, hm]) (by simp; omega)
+    · have h256 : 256 ≤ d0 * 256 + d1 := by omega
+      simp only [hpg, if_false, List.nil_append]
+      cases hl : lookup r.memo with
+      | none => simp [hl] at ht
+      | some hd =>
+        cases hd <;> simp [hl] at ht
+        case alu8 w =>
+          obtain ⟨⟨⟨h1, h2⟩, h3⟩, h4⟩ := ht
+          exact asm_one g a r.memo _ _ hmemo hl
+            (by rw [encode_alu8_ext g a w r.memo (by omega) h256 h1, h2, hq, hm]) (by simp; omega)
+        case alu16 mi mn sh c =>
+          obtain ⟨⟨⟨⟨⟨h1, h2⟩, h3⟩, h4⟩, h5⟩, h6⟩ := ht
+          exact asm_one g a r.memo _ _ hmemo hl
+            (by rw [encode_alu16_ext g a mn sh c mi r.memo (by omega) h256 h1 h2 h3, h4, hq, hm]) (by simp; omega)
+        case sing8 c =>
+          exact asm_one g a r.memo _ _ hmemo hl (by rw [encode_sing8_ext g a c r.memo (by omega), ht.1, hq, hm]) (by simp; omega)
+        case jmp =>
+          exact asm_one g a r.memo _ _ hmemo hl (by rw [encode_jmp_ext g a r.memo (by omega), ht.1, hq, hm]) (by simp; omega)
+        case jsr =>
+          exact asm_one g a r.memo _ _ hmemo hl (by rw [encode_jsr_ext g a r.memo (by omega), ht.1, hq, hm]) (by simp; omega)
   case eImmediate =>
     simp only [Option.some.injEq, Prod.mk.injEq] at h
     obtain ⟨rfl, rfl⟩ := h
     simp only [Dec.text]
     simp only [operandBytes, hty] at hlen
     simp only [instrLen, operandBytes, hty] at ha
-    simp only [Bool.or_eq_false_iff, beq_eq_false_iff_ne] at hbad
     cases hl : lookup r.memo with
-    | none => simp [hl, hbad.1.2] at ht
+    | none => simp [hl] at ht
     | some hd =>
-      cases hd <;> simp [hl, hbad.1.2] at ht
+      cases hd <;> simp [hl] at ht
       case alu8 w =>
         obtain ⟨⟨⟨h1, h2⟩, h3⟩, h4⟩ := ht
         rw [h4] at hlen ha hsym ⊢
@@ -204,7 +221,6 @@ theorem C15_6800_roundtrip (lower : Bool) (syms syms' : Syms) (env : A6800.Env) 
 
 /-- non-vacuity: `ldaa $1234` (B6 12 34) at $1000 – no symbols involved -/
 example : (M6800.decode false {} 0x1000 0xb6 [0x12, 0x34]).map (fun p => (p.1.text, p.1.len)) = some ("ldaa\t$1234".toList, 3) ∧
-    M6800.knownBad 0xb6 [0x12, 0x34] = false ∧
     A6800.assemble (fun _ => none) 0x1000 "ldaa\t$1234".toList = some [0xb6, 0x12, 0x34] := by decide +kernel
 
 /-- non-vacuity with a label: `bra lab_1004` (20 02) at $1000; the hypotheses of `C15_6800_roundtrip` hold for the symbol table
@@ -212,7 +228,7 @@ that maps the invented name back to $1004 -/
 example : ∃ dec syms', M6800.decode false {} 0x1000 0x20 [0x02] = some (dec, syms') ∧ 0x1000 + dec.len ≤ 0x10000 ∧
     (∀ x n, syms'.lookup x = some n → A6800.plainLabel n.toList = true ∧
       (fun s => if s = "lab_1004".toList then some 0x1004 else none) n.toList = some x) ∧
-    M6800.knownBad 0x20 [0x02] = false ∧ dec.text = "bra\tlab_1004".toList := by
+    dec.text = "bra\tlab_1004".toList := by
   cases h : M6800.decode false {} 0x1000 0x20 [0x02] with
   | none => exact absurd h (by decide +kernel)
   | some p =>
@@ -222,7 +238,7 @@ example : ∃ dec syms', M6800.decode false {} 0x1000 0x20 [0x02] = some (dec, s
     have htext : (M6800.decode false {} 0x1000 0x20 [0x02]).map (fun p => p.1.text) = some "bra\tlab_1004".toList := by decide +kernel
     rw [h] at hlen htab htext
     simp only [Option.map_some, Option.some.injEq] at hlen htab htext
-    refine ⟨dec, syms', rfl, by omega, ?_, by decide +kernel, htext⟩
+    refine ⟨dec, syms', rfl, by omega, ?_, htext⟩
     intro x n hl
     unfold Syms.lookup at hl
     rw [htab] at hl
@@ -286,323 +302,188 @@ theorem C15_finding_6800_fallthrough_wrap : (0xfffe + 1) % 0xffff = 0 ∧ (0xfff
 
 /-! ### the reported areas lie inside the image -/
 
-/-- the instruction that starts at `a` is whole: all operand bytes its opcode asks for lie at `a+1…` below 64K inside the image.
-(`RetrieveCodeFromChunkList` does not advance `Start` between its rounds and `RetrieveData` continues at address 0 after
-0xFFFF, so an instruction cut off by the end of a chunk or by the end of the address space is "completed" from other bytes
-and still reported with its full length – see `C15_finding_6800_cut_instruction`.) -/
-def M6800.Whole (img : Image) (a : Nat) : Prop :=
-  ∀ bs, retrieve img a 1 = some bs →
-    ∀ k, k < M6800.operandBytes (M6800.row ((bs.map UInt8.toNat).getD 0 0)) → a + 1 + k < 0x10000 ∧ inImage img (a + 1 + k)
-
 open M6800 in
-/-- `Disassemble_68` at `a` reports only bytes of the image when the instruction at `a` is whole -/
-theorem C15_6800_honest_at (img : Image) (lower : Bool) (syms : Syms) (a : Nat) (ha : a ≠ 0x10000) (hw : M6800.Whole img a) :
+/-- `Disassemble_68` at `a` reports only bytes of the image, provided the instruction it reports does not run through the end of
+the 64K address space (or address 0 is no byte of the image, so that nothing can be fetched through the wrap of `RetrieveData`).
+No assumption about the image: an instruction that is cut off by the end of a chunk is not reported
+(`C15_6800_cut_instruction_not_reported`), one that lies in two adjacent chunks is (`C15_6800_instruction_across_chunks`). -/
+theorem C15_6800_honest_at (img : Image) (lower : Bool) (syms : Syms) (a : Nat)
+    (hw : a + (M6800.disassemble img lower syms a false (-1)).1.len ≤ 0x10000 ∨ ¬ inImage img 0) :
     ∀ x, a ≤ x → x < a + (M6800.disassemble img lower syms a false (-1)).1.len → inImage img x := by
   intro x hx1 hx2
-  unfold M6800.disassemble at hx2
-  rw [retrieveData_one img lower a ha] at hx2
-  cases hr : retrieve img a 1 with
-  | none => simp [hr] at hx2; omega
-  | some bs =>
-    have hin := retrieve_one_inImage img a bs hr
-    have hw' := hw bs hr
-    simp only [hr, Bool.false_eq_true, if_false] at hx2
-    generalize (bs.map UInt8.toNat).getD 0 0 = op at hx2 hw'
-    split at hx2
-    · -- unknown opcode: one data byte
-      have h0 : retrieveData img lower (a + 1) 0 = (some [], []) := by simp [retrieveData, retrieveDataF]
-      simp [h0] at hx2
-      have : x = a := by omega
-      rw [this]; exact hin
-    · cases hd : retrieveData img lower (a + 1) (operandBytes (row op)) with
-      | mk od e =>
-        cases od with
-        | none => simp [hd] at hx2; omega
-        | some data =>
-          simp only [hd] at hx2
-          cases hdec : decode lower syms a op data with
-          | none => simp [hdec] at hx2; omega
-          | some p =>
-            obtain ⟨dec, s'⟩ := p
-            simp only [hdec] at hx2
-            have hl : dec.len = instrLen (row op) := by
-              unfold decode at hdec
-              by_cases hlen : data.length = operandBytes (row op)
-              case neg => simp [hlen] at hdec
-              simp only [hlen, ne_eq, not_true_eq_false, ↓reduceIte] at hdec
-              cases hty : (row op).typ <;> simp only [hty] at hdec
-              case eUnknown => cases hdec
-              all_goals
-                simp only [Option.some.injEq, Prod.mk.injEq] at hdec
-                obtain ⟨rfl, _⟩ := hdec
-                rfl
-            rw [hl] at hx2
-            unfold instrLen at hx2
-            by_cases hxa : x = a
-            · rw [hxa]; exact hin
-            · have := (hw' (x - a - 1) (by omega)).2
-              have he : a + 1 + (x - a - 1) = x := by omega
-              rw [he] at this; exact this
-
-/-- the `Honest` predicate of the generic trace-loop theorems, for images in which no instruction-shaped byte sequence is cut off
-(and nothing can be fetched through the wrap at 0x10000) -/
-theorem C15_6800_honest (img : Image) (lower : Bool) (hw : ∀ a, M6800.Whole img a)
-    (h00 : retrieve img 0 1 = none) : Honest M6800.disassemble img lower := by
-  intro syms a x hx1 hx2
   by_cases ha : a = 0x10000
-  · subst ha
+  · -- the opcode byte would be fetched from address 0
+    subst ha
     exfalso
-    have h1 : M6800.retrieveData img lower 0x10000 1 = (none, ["cannot retrieve instruction arg @ 0x" ++ hexString lower 0 0]) := by
-      have hz : retrieve img 0x10000 0 = some [] := rfl
-      simp [M6800.retrieveData, M6800.retrieveDataF, hz, h00]
-    unfold M6800.disassemble at hx2
-    simp [h1] at hx2
-    omega
-  · exact C15_6800_honest_at img lower syms a ha (hw a) x hx1 hx2
+    rcases hw with hw | hw
+    · omega
+    · have h1 : M6800.retrieveData img lower 0x10000 1 = (none, ["cannot retrieve instruction arg @ 0x" ++ hexString lower 0 0]) := by
+        have hz : retrieve img 0x10000 0 = some [] := rfl
+        have h00 := retrieve_none_of_not_inImage img 0 1 (by omega) hw
+        simp [M6800.retrieveData, M6800.retrieveDataF, hz, h00]
+      unfold M6800.disassemble at hx2
+      simp [h1] at hx2
+      omega
+  · unfold M6800.disassemble at hx2 hw
+    rw [retrieveData_one img lower a ha] at hx2 hw
+    cases hr : retrieve img a 1 with
+    | none => simp [hr] at hx2; omega
+    | some bs =>
+      have hin := retrieve_one_inImage img a bs hr
+      simp only [hr, Bool.false_eq_true, if_false] at hx2 hw
+      generalize (bs.map UInt8.toNat).getD 0 0 = op at hx2 hw
+      split at hx2
+      · -- unknown opcode: one data byte
+        have h0 : retrieveData img lower (a + 1) 0 = (some [], []) := by simp [retrieveData, retrieveDataF]
+        simp [h0] at hx2
+        have : x = a := by omega
+        rw [this]; exact hin
+      · rename_i hunk
+        simp only [hunk, if_false] at hw
+        cases hd : retrieveData img lower (a + 1) (operandBytes (row op)) with
+        | mk od e =>
+          cases od with
+          | none => simp [hd] at hx2; omega
+          | some data =>
+            simp only [hd] at hx2 hw
+            cases hdec : decode lower syms a op data with
+            | none => simp [hdec] at hx2; omega
+            | some p =>
+              obtain ⟨dec, s'⟩ := p
+              simp only [hdec] at hx2 hw
+              have hl : dec.len = instrLen (row op) := by
+                unfold decode at hdec
+                by_cases hlen : data.length = operandBytes (row op)
+                case neg => simp [hlen] at hdec
+                simp only [hlen, ne_eq, not_true_eq_false, ↓reduceIte] at hdec
+                cases hty : (row op).typ <;> simp only [hty] at hdec
+                case eUnknown => cases hdec
+                all_goals
+                  simp only [Option.some.injEq, Prod.mk.injEq] at hdec
+                  obtain ⟨rfl, _⟩ := hdec
+                  rfl
+              rw [hl] at hx2 hw
+              unfold instrLen at hx2 hw
+              by_cases hxa : x = a
+              · rw [hxa]; exact hin
+              · have := retrieveData_inImage img lower (a + 1) (operandBytes (row op)) data e hd
+                  (by rcases hw with hw | hw
+                      · left; omega
+                      · right; exact hw) (x - a - 1) (by omega)
+                have he : a + 1 + (x - a - 1) = x := by omega
+                rw [he] at this; exact this
 
-/-- non-vacuity of the hypotheses of `C15_6800_honest`: the image `01 39` (nop, rts) at $1000 -/
-example : (∀ a, M6800.Whole [⟨0x1000, [0x01, 0x39]⟩] a) ∧ retrieve [⟨0x1000, [0x01, 0x39]⟩] 0 1 = none := by
-  refine ⟨?_, by decide +kernel⟩
-  intro a bs hbs k hk
-  exfalso
-  have ha : a = 0x1000 ∨ a = 0x1001 := by
-    have hin := M6800.retrieve_one_inImage _ a bs hbs
-    obtain ⟨c, hc, h1, h2⟩ := hin
-    simp at hc
-    subst hc
-    simp at h1 h2
-    omega
-  rcases ha with rfl | rfl
-  · have : retrieve [⟨0x1000, [0x01, 0x39]⟩] 0x1000 1 = some [0x01] := by decide +kernel
-    rw [this] at hbs; cases hbs
-    have h0 : M6800.operandBytes (M6800.row ((List.map UInt8.toNat [0x01]).getD 0 0)) = 0 := by decide +kernel
-    omega
-  · have : retrieve [⟨0x1000, [0x01, 0x39]⟩] 0x1001 1 = some [0x39] := by decide +kernel
-    rw [this] at hbs; cases hbs
-    have h0 : M6800.operandBytes (M6800.row ((List.map UInt8.toNat [0x39]).getD 0 0)) = 0 := by decide +kernel
-    omega
+/-- the `Honest` predicate of the generic trace-loop theorems holds for every image in which address 0 is not loaded (nothing can
+be fetched through the wrap at 0x10000).  The former hypothesis that every instruction-shaped byte sequence of the image is
+whole is gone. -/
+theorem C15_6800_honest (img : Image) (lower : Bool) (h00 : ¬ inImage img 0) : Honest M6800.disassemble img lower := by
+  intro syms a x hx1 hx2
+  exact C15_6800_honest_at img lower syms a (Or.inr h00) x hx1 hx2
 
-/-- for the 6800 the reported code areas lie inside the loaded image if every traced instruction is whole -/
+/-- non-vacuity: the image `01 B6 12` at $1000 – with an instruction cut off by its end – satisfies the hypothesis -/
+example : ¬ inImage [⟨0x1000, [0x01, 0xb6, 0x12]⟩] 0 := by simp [inImage]
+
+/-- for the 6800 the reported code areas lie inside the loaded image if no traced instruction runs through the end of the 64K
+address space (or address 0 is not loaded) -/
 theorem C15_6800_areas_inside (img : Image) (lower : Bool) (fuel : Nat) (s0 : TState) (h0 : s0.code = []) (h1 : s0.traced = [])
-    (hw : ∀ e ∈ (traceLoop M6800.disassemble img lower fuel s0).1.traced, e.1 ≠ 0x10000 ∧ M6800.Whole img e.1) :
+    (hw : (∀ e ∈ (traceLoop M6800.disassemble img lower fuel s0).1.traced, e.1 + e.2 ≤ 0x10000) ∨ ¬ inImage img 0) :
     ∀ x, area (traceLoop M6800.disassemble img lower fuel s0).1.code x → inImage img x := by
   intro x hx
   have hA := (C15_areas M6800.disassemble img lower fuel s0 h0 h1).2.2 x
   have hF := traceLoop_from M6800.disassemble img lower fuel s0 (by rw [h1]; intro e he; cases he)
   obtain ⟨e, he, hx1, hx2⟩ := hA.mp hx
   obtain ⟨syms, hlen, _⟩ := hF e he
-  exact C15_6800_honest_at img lower syms e.1 (hw e he).1 (hw e he).2 x hx1 (by rw [hlen]; exact hx2)
+  refine C15_6800_honest_at img lower syms e.1 ?_ x hx1 (by rw [hlen]; exact hx2)
+  rcases hw with hw | hw
+  · left; rw [hlen]; exact hw e he
+  · right; exact hw
 
-/-! ### the exclusions are real (known findings of C15) -/
+/-! ### the repaired defects, as positive facts about the models of the repaired code -/
 
-open M6800 A6800 in
-/-- `$14` is printed as `nba`; code68.c has no such instruction, whatever the context.  Known finding `sweep-6800-14-not-reassemblable`. -/
-theorem C15_finding_6800_nba (lower : Bool) (syms : Syms) (env : A6800.Env) (a : Nat)
-    (hr : row 0x14 = ⟨.eImplicit, 0, 1, ['n', 'b', 'a']⟩) (hl : lookup ['n', 'b', 'a'] = none) :
-    (M6800.decode lower syms a 0x14 []).map (fun p => p.1.text) = some ['n', 'b', 'a'] ∧
-    A6800.assemble env a ['n', 'b', 'a'] = none := by
-  have hs : splitStmt ['n', 'b', 'a'] = (['n', 'b', 'a'], []) := by decide
-  constructor
-  · simp [decode, hr, operandBytes, Dec.text]
-  · simp [assemble, hs, hl]
+/-- every mnemonic `OpcodeList` prints is an instruction code68.c knows for the 6800 (formerly `$14` = `nba` and `$34` = `dess`
+were not: findings `sweep-6800-14-not-reassemblable`, `deco68-des-printed-dess`) -/
+theorem C15_6800_every_mnemonic_known :
+    ∀ op, op < 256 → (M6800.row op).typ ≠ .eUnknown → (A6800.lookup (M6800.row op).memo).isSome = true := by
+  decide +kernel
 
 open M6800 A6800 in
-/-- `$34` (DES) is printed as `dess`, which code68.c does not know, and the row's successor mask is 0, so tracing stops after it.
-Known findings `deco68-des-printed-dess` / `sweep-6800-34-not-reassemblable`. -/
-theorem C15_finding_6800_dess (lower : Bool) (syms : Syms) (env : A6800.Env) (a : Nat) (ha : a + 1 ≤ 0x10000)
-    (hr : row 0x34 = ⟨.eImplicit, 0, 0, ['d', 'e', 's', 's']⟩) (hl : lookup ['d', 'e', 's', 's'] = none) :
-    (M6800.decode lower syms a 0x34 []).map (fun p => (p.1.text, p.1.next)) = some (['d', 'e', 's', 's'], 0) ∧
-    A6800.assemble env a ['d', 'e', 's', 's'] = none ∧ A6800.assemble env a ['d', 'e', 's'] = some [0x34] := by
-  have hs : splitStmt ['d', 'e', 's', 's'] = (['d', 'e', 's', 's'], []) := by decide
+/-- `$34` is printed as `des`, which code68.c assembles to `34` -/
+theorem C15_6800_des (lower : Bool) (syms : Syms) (env : A6800.Env) (a : Nat) (ha : a + 1 ≤ 0x10000) :
+    (M6800.decode lower syms a 0x34 []).map (fun p => p.1.text) = some ['d', 'e', 's'] ∧
+    A6800.assemble env a ['d', 'e', 's'] = some [0x34] := by
+  have hr : row 0x34 = ⟨.eImplicit, 0, 0, ['d', 'e', 's']⟩ := by decide +kernel
   have hs2 : splitStmt ['d', 'e', 's'] = (['d', 'e', 's'], []) := by decide
   have hl2 : lookup ['d', 'e', 's'] = some (.fixed 0x34 0 4) := by decide +kernel
-  refine ⟨?_, ?_, ?_⟩
+  constructor
   · simp [decode, hr, operandBytes, Dec.text]
-  · simp [assemble, hs, hl]
   · simp [assemble, hs2, hl2, encode, cpu, DisIsa6800.cpu6800, addrSpace, ha]
 
-open M6800 A6800 in
-/-- `$C7` is printed as `stab #<operand>` for every operand byte; `DecodeALU8` does not allow the immediate mode for STAB, so the
-statement is rejected.  Known finding `sweep-6800-C7-not-reassemblable`. -/
-theorem C15_finding_6800_stab_imm (lower : Bool) (syms syms' : Syms) (env : A6800.Env) (a d : Nat) (dec : M6800.Dec) (hd : d < 256)
-    (h : M6800.decode lower syms a 0xc7 [d] = some (dec, syms'))
-    (hsym : ∀ x n, syms'.lookup x = some n → A6800.plainLabel n.toList = true ∧ env n.toList = some x)
-    (hr : row 0xc7 = ⟨.eImmediate, 0, 1, ['s', 't', 'a', 'b']⟩) (hl : lookup ['s', 't', 'a', 'b'] = some (.alu8 0x4187)) :
-    A6800.assemble env a dec.text = none := by
-  have hm : ∀ c ∈ ['s', 't', 'a', 'b'], isBlank c = false := by decide
-  simp only [decode, hr, operandBytes, List.length_singleton, opAddr, instrLen] at h
-  simp only [Nat.zero_add, ne_eq, not_true_eq_false, ↓reduceIte, List.getD_cons_zero, Option.some.injEq, Prod.mk.injEq] at h
-  obtain ⟨rfl, rfl⟩ := h
-  have g := makeSymbolic_good env lower syms d 1 none (by omega) hsym
-  simp only [Dec.text]
-  generalize (makeSymbolic lower syms d 1 none).fst.toList = atom at g ⊢
-  simp only [List.cons_append, List.nil_append, Bool.false_eq_true, if_false, List.append_nil]
-  show assemble env a (['s', 't', 'a', 'b'] ++ '\t' :: '#' :: atom) = none
-  have he := encode_alu8_imm_rejected g a 0x4187 ['s', 't', 'a', 'b'] (by decide) (by decide)
-  have hb : ∀ c ∈ '#' :: atom, isBlank c = false := by
-    intro c hc
-    rcases List.mem_cons.mp hc with rfl | hc
-    · decide
-    · exact g.noBlank c hc
-  have hn : ',' ∉ ('#' :: atom) := by
-    intro hc
-    rcases List.mem_cons.mp hc with e | hc
-    · revert e; decide
-    · exact g.noComma hc
-  have hsp := splitStmt_operand ['s', 't', 'a', 'b'] ('#' :: atom) hm hb (by simp)
-  unfold assemble
-  rw [hsp]
-  simp only [hl, splitComma_noComma _ hn, he]
-
-/-- …and such inputs exist -/
-example : (M6800.decode false {} 0x1000 0xc7 [0x10]).map (fun p => p.1.text) = some "stab\t#$10".toList := by decide +kernel
+/-- `$14`, `$87` and `$C7` are no instructions for deco68.c (code68.c has no NBA and no store-immediate): the callback lists the
+byte as data, `byt $14` / `byt $C7`, with the message `unknown opcode` (formerly `nba` and `stab #$xx`: findings
+`sweep-6800-14-not-reassemblable`, `sweep-6800-C7-not-reassemblable`) -/
+theorem C15_6800_unknown_opcodes_listed_as_data :
+    (M6800.row 0x14).typ = .eUnknown ∧ (M6800.row 0x87).typ = .eUnknown ∧ (M6800.row 0xc7).typ = .eUnknown ∧
+    (M6800.disassemble [⟨0x1000, [0x14, 0x39]⟩] false {} 0x1000 false (-1)).1.src = "byt\t$14" ∧
+    (M6800.disassemble [⟨0x1000, [0xc7, 0x10, 0x39]⟩] false {} 0x1000 false (-1)).1.src = "byt\t$C7" ∧
+    (M6800.disassemble [⟨0x1000, [0xc7, 0x10, 0x39]⟩] false {} 0x1000 false (-1)).1.len = 1 := by
+  decide +kernel
 
 open M6800 A6800 in
-/-- an extended-mode `ldaa` whose address high byte is 0 (`B6 00 d`) is printed as `ldaa $00dd` (or with a label of that value);
-the assembler chooses the direct mode for that text and emits the two bytes `96 d`.  Known finding `deco68-extended-zero-page`. -/
-theorem C15_finding_6800_ext_zero_page (lower : Bool) (syms syms' : Syms) (env : A6800.Env) (a d : Nat) (dec : M6800.Dec)
-    (hd : d < 256) (ha : a + 2 ≤ 0x10000)
+/-- an extended-mode instruction whose address high byte is 0 (here `ldaa`, `B6 00 d`) is printed with the `>` prefix, and the
+assembler gives the three bytes back (formerly printed `ldaa $00dd` and assembled in direct mode to `96 d`: finding
+`deco68-extended-zero-page`).  Instance of `C15_6800_roundtrip`, which covers all extended-mode rows. -/
+theorem C15_6800_ext_zero_page (lower : Bool) (syms syms' : Syms) (env : A6800.Env) (a d : Nat) (dec : M6800.Dec)
+    (hd : d < 256) (ha : a + 3 ≤ 0x10000)
     (h : M6800.decode lower syms a 0xb6 [0, d] = some (dec, syms'))
-    (hsym : ∀ x n, syms'.lookup x = some n → A6800.plainLabel n.toList = true ∧ env n.toList = some x)
-    (hr : row 0xb6 = ⟨.eExtended, 0, 1, ['l', 'd', 'a', 'a']⟩) (hl : lookup ['l', 'd', 'a', 'a'] = some (.alu8 0x8186)) :
-    A6800.assemble env a dec.text = some [0x96, d] ∧ dec.len = 3 := by
-  have hm : ∀ c ∈ ['l', 'd', 'a', 'a'], isBlank c = false := by decide
+    (hsym : ∀ x n, syms'.lookup x = some n → A6800.plainLabel n.toList = true ∧ env n.toList = some x) :
+    A6800.assemble env a dec.text = some [0xb6, 0, d] ∧ dec.pre = ['>'] ∧ dec.len = 3 := by
+  have hlen := (C15_6800_length lower syms syms' a 0xb6 [0, d] dec (by decide) h).1
+  have hrt := C15_6800_roundtrip lower syms syms' env a 0xb6 [0, d] dec (by decide)
+    (by intro x hx; simp at hx; rcases hx with rfl | rfl <;> omega) h (by rw [hlen]; simpa using ha) hsym
+  refine ⟨hrt, ?_, by simpa using hlen⟩
+  have hr : row 0xb6 = ⟨.eExtended, 0, 1, ['l', 'd', 'a', 'a']⟩ := by decide +kernel
   simp only [decode, hr, operandBytes, List.length_cons, List.length_nil, opAddr, instrLen] at h
   simp only [ne_eq, not_true_eq_false, ↓reduceIte, List.getD_cons_zero, List.getD_cons_succ, Nat.zero_mul, Nat.zero_add,
     Option.some.injEq, Prod.mk.injEq] at h
-  obtain ⟨rfl, rfl⟩ := h
-  have g := makeSymbolic_good env lower syms d 2 _ (by omega) hsym
-  simp only [Dec.text]
-  generalize (makeSymbolic lower syms d 2 _).fst.toList = atom at g ⊢
-  simp only [List.nil_append, Bool.false_eq_true, if_false, List.append_nil]
-  refine ⟨?_, trivial⟩
-  have he := encode_alu8_dir g a 0x8186 ['l', 'd', 'a', 'a'] hd (by decide)
-  have hop : alu8Op 0x8186 1 (0x8186 / 0x4000 % 2) = 0x96 := by decide
-  rw [hop] at he
-  exact asm_one g a _ _ _ hm hl he (by simp; omega)
+  obtain ⟨rfl, _⟩ := h
+  have : d < 0x100 := hd
+  simp [this]
 
-/-- the table facts the finding is stated for hold on the current tables -/
-example : M6800.row 0xb6 = ⟨.eExtended, 0, 1, ['l', 'd', 'a', 'a']⟩ ∧ A6800.lookup ['l', 'd', 'a', 'a'] = some (.alu8 0x8186) := by
+/-- …for instance `ldaa >$0034`; from $0100 on nothing is put in front -/
+example : (M6800.decode false {} 0x1000 0xb6 [0x00, 0x34]).map (fun p => p.1.text) = some "ldaa\t>$0034".toList ∧
+    A6800.assemble (fun _ => none) 0x1000 "ldaa\t>$0034".toList = some [0xb6, 0x00, 0x34] ∧
+    (M6800.decode false {} 0x1000 0xb6 [0x01, 0x00]).map (fun p => p.1.text) = some "ldaa\t$0100".toList ∧
+    (M6800.decode false {} 0x1000 0x7e [0x00, 0x60]).map (fun p => p.1.text) = some "jmp\t>lab_0060".toList := by decide +kernel
+
+/-- an instruction cut off by the end of the image is not reported: image `01 B6 12` at $1000, the `ldaa` (extended) at $1001 asks for
+two operand bytes of which only one exists; `RetrieveCodeFromChunkList` no longer completes the request with the byte it already
+delivered, the callback reports `cannot retrieve instruction arg` and length 0 (formerly length 3 and a code area `1000...1003`:
+finding `dasl-instruction-cut-at-image-end`) -/
+theorem C15_6800_cut_instruction_not_reported :
+    (M6800.disassemble [⟨0x1000, [0x01, 0xb6, 0x12]⟩] false {} 0x1001 false (-1)).1.len = 0 ∧
+    (M6800.disassemble [⟨0x1000, [0x01, 0xb6, 0x12]⟩] false {} 0x1001 false (-1)).2.2 = ["cannot retrieve instruction arg @ 0x1002"] ∧
+    ¬ inImage [⟨0x1000, [0x01, 0xb6, 0x12]⟩] 0x1003 := by
+  refine ⟨by decide +kernel, by decide +kernel, by simp [inImage]⟩
+
+/-- an instruction whose bytes lie in two adjacent chunks of the image (hex records that were not joined while loading) is fetched
+from both: `B6 12 | 34 39` at $1000/$1002 gives `ldaa $1234` (formerly `ldaa $1212 ; B6 12 B6`: finding
+`dasl-instruction-across-hex-chunks`) -/
+theorem C15_6800_instruction_across_chunks :
+    retrieve [⟨0x1000, [0xb6, 0x12]⟩, ⟨0x1002, [0x34, 0x39]⟩] 0x1001 2 = some [0x12, 0x34] ∧
+    (M6800.disassemble [⟨0x1000, [0xb6, 0x12]⟩, ⟨0x1002, [0x34, 0x39]⟩] false {} 0x1000 false (-1)).1.src = "ldaa\t$1234" ∧
+    (M6800.disassemble [⟨0x1000, [0xb6, 0x12]⟩, ⟨0x1002, [0x34, 0x39]⟩] false {} 0x1000 false (-1)).1.len = 3 := by
   decide +kernel
 
-/-- …and such inputs exist: `ldaa >$0034` -/
-example : (M6800.decode false {} 0x1000 0xb6 [0x00, 0x34]).map (fun p => p.1.text) = some "ldaa\t$0034".toList ∧
-    A6800.assemble (fun _ => none) 0x1000 "ldaa\t$0034".toList = some [0x96, 0x34] := by decide +kernel
+/-! ### what remains (known finding of C15) -/
 
-open M6800 A6800 in
-/-- the exclusion of `C15_6800_roundtrip` is exact: on every input of the four known bad classes (other hypotheses unchanged)
-the printed statement does NOT assemble back to the decoded bytes -/
-theorem C15_6800_exclusions_exact (lower : Bool) (syms syms' : Syms) (env : A6800.Env) (a op : Nat) (data : List Nat) (dec : M6800.Dec)
-    (hop : op < 256) (hdata : ∀ d ∈ data, d < 256)
-    (h : M6800.decode lower syms a op data = some (dec, syms'))
-    (ha : a + dec.len ≤ 0x10000)
-    (hsym : ∀ x n, syms'.lookup x = some n → A6800.plainLabel n.toList = true ∧ env n.toList = some x)
-    (hbad : M6800.knownBad op data = true) (hdef : M6800.defectsPresent = true) :
-    A6800.assemble env a dec.text ≠ some (op :: data) := by
-  unfold M6800.defectsPresent at hdef
-  simp only [Bool.and_eq_true, beq_iff_eq] at hdef
-  obtain ⟨⟨⟨⟨⟨r14, l14⟩, r34⟩, l34⟩, rc7⟩, lc7⟩ := hdef
-  have hlen0 : data.length = operandBytes (row op) := by
-    unfold decode at h
-    by_cases hlen : data.length = operandBytes (row op)
-    · exact hlen
-    · simp [hlen] at h
-  unfold M6800.knownBad at hbad
-  simp only [Bool.or_eq_true, beq_iff_eq, Bool.and_eq_true, decide_eq_true_eq, bne_iff_ne, ne_eq] at hbad
-  rcases hbad with ((rfl | rfl) | rfl) | ⟨⟨⟨hty, h1⟩, h2⟩, h3⟩
-  · have hd : data = [] := List.eq_nil_of_length_eq_zero (by rw [hlen0, r14]; rfl)
-    subst hd
-    have hf := C15_finding_6800_nba lower syms env a r14 l14
-    rw [h] at hf
-    simp only [Option.map_some, Option.some.injEq] at hf
-    rw [hf.1, hf.2]; simp
-  · have hd : data = [] := List.eq_nil_of_length_eq_zero (by rw [hlen0, r34]; rfl)
-    subst hd
-    have hl : dec.len = 1 := by
-      have := (C15_6800_length lower syms syms' a 0x34 [] dec (by decide) h).1
-      simpa using this
-    have hf := C15_finding_6800_dess lower syms env a (by omega) r34 l34
-    rw [h] at hf
-    simp only [Option.map_some, Option.some.injEq, Prod.mk.injEq] at hf
-    rw [hf.1.1, hf.2.1]; simp
-  · have hl1 : data.length = 1 := by rw [hlen0, rc7]; rfl
-    obtain ⟨d, rfl⟩ := List.length_eq_one_iff.mp hl1
-    rw [C15_finding_6800_stab_imm lower syms syms' env a d dec (hdata d (by simp)) h hsym rc7 lc7]
-    simp
-  · -- extended form of an instruction that also has a direct form, high byte 0: two bytes come back
-    have ht := table_ok op hop
-    unfold tableOK at ht
-    unfold decode at h
-    generalize hr : row op = r at *
-    simp only [Bool.and_eq_true, List.all_eq_true, Bool.not_eq_true'] at ht
-    obtain ⟨hmemo, ht⟩ := ht
-    have hty' : r.typ = .eExtended := by simpa using hty
-    simp only [hlen0, ne_eq, not_true_eq_false, ↓reduceIte, hty'] at h ht
-    simp only [Option.some.injEq, Prod.mk.injEq] at h
-    obtain ⟨rfl, rfl⟩ := h
-    simp only [operandBytes, hty'] at hlen0
-    obtain ⟨d0, d1, rfl⟩ := length_two _ hlen0
-    have hd0 : d0 = 0 := by simpa using h3
-    subst hd0
-    have hd1 : d1 < 256 := hdata d1 (by simp)
-    have hoa : opAddr r a [0, d1] = d1 := by simp [opAddr, hty']
-    simp only [instrLen, operandBytes, hty'] at ha
-    simp only [Dec.text]
-    rw [hoa] at hsym ⊢
-    have g := makeSymbolic_good env lower syms d1 2 _ (by omega) hsym
-    generalize (makeSymbolic lower syms d1 2 _).fst.toList = atom at g ⊢
-    simp only [List.nil_append, Bool.false_eq_true, if_false, List.append_nil]
-    cases hl : lookup r.memo with
-    | none => simp [hl] at ht
-    | some hd =>
-      cases hd <;> simp [hl] at ht
-      case alu8 w =>
-        rw [asm_one g a r.memo _ _ hmemo hl (encode_alu8_dir g a w r.memo hd1 ht.1.1.1) (by simp; omega)]
-        simp
-      case alu16 mi mn sh c =>
-        obtain ⟨⟨⟨⟨⟨q1, q2⟩, q3⟩, q4⟩, q5⟩, q6⟩ := ht
-        rw [asm_one g a r.memo _ _ hmemo hl (encode_alu16_dir g a mn sh c mi r.memo hd1 q1 q2 q3) (by simp; omega)]
-        simp
-      case sing8 c => omega
-      case jmp => omega
-      case jsr => exact absurd ht.2 h2
-
-/-- an instruction cut off by the end of the image is reported with its full length: image `01 B6 12` at $1000, the `ldaa`
-(extended) at $1001 is "completed" by `RetrieveCodeFromChunkList` re-reading $1002, `CodeLen` = 3, so the code area ends at
-$1003 – outside the image.  Finding `dasl-instruction-cut-at-image-end` (seen on the real dasl: `1000...1003 (code)`, `4/3 bytes`). -/
-theorem C15_finding_6800_cut_instruction :
-    (M6800.disassemble [⟨0x1000, [0x01, 0xb6, 0x12]⟩] false {} 0x1001 false (-1)).1.len = 3 ∧
-    ¬ inImage [⟨0x1000, [0x01, 0xb6, 0x12]⟩] 0x1003 ∧ ¬ M6800.Whole [⟨0x1000, [0x01, 0xb6, 0x12]⟩] 0x1001 := by
-  refine ⟨by decide +kernel, by simp [inImage], ?_⟩
-  intro hw
-  have h1 : retrieve [⟨0x1000, [0x01, 0xb6, 0x12]⟩] 0x1001 1 = some [0xb6] := by decide +kernel
-  have := (hw _ h1 1 (by decide +kernel)).2
-  simp [inImage] at this
-
-/-- …and across the end of the address space: `B6 12` at $FFFE with a byte at $0000 gives a 3-byte instruction `FFFE…10000` -/
+/-- deco68.c's own `RetrieveData` still continues an operand fetch at address 0 behind $FFFF: `B6 12` at $FFFE with a byte at $0000
+gives a 3-byte instruction, reported as the extent `FFFE…10000` which is not inside the image (finding `dasl-instruction-wraps-64k`);
+this is why `C15_6800_honest_at` has its hypothesis.  The byte dump of that line takes the third byte from the part of `Code[]`
+`RetrieveCodeFromChunkList` did not fill (`retrieveCopied` delivers two bytes). -/
 theorem C15_finding_6800_wrap_instruction :
     (M6800.disassemble [⟨0, [0x10]⟩, ⟨0xfffe, [0xb6, 0x12]⟩] false {} 0xfffe false (-1)).1.len = 3 ∧
-    ¬ inImage [⟨0, [0x10]⟩, ⟨0xfffe, [0xb6, 0x12]⟩] 0x10000 := by
-  refine ⟨by decide +kernel, by simp [inImage]⟩
-
-/-- non-vacuity of `Whole`: in the image `01 B6 12 34 39` at $1000 the instructions at $1000, $1001 and $1004 are whole -/
-example : ∀ a ∈ [0x1000, 0x1001, 0x1004], M6800.Whole [⟨0x1000, [0x01, 0xb6, 0x12, 0x34, 0x39]⟩] a := by
-  intro a ha
-  simp only [List.mem_cons, List.not_mem_nil, or_false] at ha
-  intro bs hbs k hk
-  rcases ha with rfl | rfl | rfl
-  · have : retrieve [⟨0x1000, [0x01, 0xb6, 0x12, 0x34, 0x39]⟩] 0x1000 1 = some [0x01] := by decide +kernel
-    rw [this] at hbs; cases hbs
-    have h0 : M6800.operandBytes (M6800.row ((List.map UInt8.toNat [0x01]).getD 0 0)) = 0 := by decide +kernel
-    rw [h0] at hk; omega
-  · have : retrieve [⟨0x1000, [0x01, 0xb6, 0x12, 0x34, 0x39]⟩] 0x1001 1 = some [0xb6] := by decide +kernel
-    rw [this] at hbs; cases hbs
-    have h0 : M6800.operandBytes (M6800.row ((List.map UInt8.toNat [0xb6]).getD 0 0)) = 2 := by decide +kernel
-    have hk2 : k < 2 := by rw [h0] at hk; exact hk
-    refine ⟨by omega, ⟨⟨0x1000, [0x01, 0xb6, 0x12, 0x34, 0x39]⟩, by simp, by simp; omega, by simp; omega⟩⟩
-  · have : retrieve [⟨0x1000, [0x01, 0xb6, 0x12, 0x34, 0x39]⟩] 0x1004 1 = some [0x39] := by decide +kernel
-    rw [this] at hbs; cases hbs
-    have h0 : M6800.operandBytes (M6800.row ((List.map UInt8.toNat [0x39]).getD 0 0)) = 0 := by decide +kernel
-    rw [h0] at hk; omega
+    ¬ inImage [⟨0, [0x10]⟩, ⟨0xfffe, [0xb6, 0x12]⟩] 0x10000 ∧
+    retrieveCopied [⟨0, [0x10]⟩, ⟨0xfffe, [0xb6, 0x12]⟩] 0xfffe 3 = [0xb6, 0x12] := by
+  refine ⟨by decide +kernel, by simp [inImage], by decide +kernel⟩
 
 end AslModel.Dis
